@@ -174,7 +174,8 @@ def text_event(ev):
     if k == "new":
         return "%s = PeriodicTable('%s'); mass.init(%s)" % (ev[1], ev[1], ev[1])
     if k == "parse":
-        return "formula('Fe2O3', table=%s)" % PY_TABLE[ev[1]]
+        return ("all atoms of the formulas built from strings with table=%s (plain, isotope/ion, wt%%, vol%%, mass/volume, layer "
+                "and biomolecule strings, mix_by_weight, mix_by_volume) are atoms of %s" % (PY_TABLE[ev[1]], PY_TABLE[ev[1]]))
     if k == "pickle":
         return "pickle round trip of %s" % PY_ATOM[ev[2]].format(t=PY_TABLE[ev[1]])
     return str(ev)
